@@ -68,8 +68,15 @@ def run_case(job):
     _rd.CASE = str(cid)
     d = workdir("stat_", cid)
     try:
-        gaf = os.path.join(d, zname("a.gaf", cid) if storage == "bgzf" else "a.gaf")
-        write_text(gaf, join_lines([gaf_line(r, k) for k, r in enumerate(recs)], cid), storage, block=200)
+        gaf = os.path.join(d, zname("a.gaf", cid) if storage.startswith("bgzf") else "a.gaf")
+        if storage == "bgzf_seams":
+            from readers import align_starts
+
+            storage = "bgzf"
+            al = align_starts([gaf_line(r, k) for k, r in enumerate(recs)], [1 << 16, 1 << 17, 1 << 20], pad=900)
+            write_text(gaf, "\n".join(al) + "\n", "bgzf", block=65280)
+        else:
+            write_text(gaf, join_lines([gaf_line(r, k) for k, r in enumerate(recs)], cid), storage, block=200)
         out = os.path.join(d, "report.txt")
         r = run_cli(["stat", gaf, "-o", out] + (["--cigar"] if cigar else []))
         txt = read_out(out) if os.path.exists(out) else ""
@@ -96,6 +103,8 @@ def run(ctx):
     jobs.append(("empty_plain", [], False, "plain"))
     jobs.append(("empty_cigar", [], True, "plain"))
     jobs.append(("empty_bgzf", [], True, "bgzf"))
+    # a BGZF file of more than 1 MiB of text whose records start exactly on 64 KiB, 128 KiB and 1 MiB (chunked readers)
+    jobs.append(("seams", [POOL[(5 * k + k // 7) % len(POOL)] for k in range(1300)], True, "bgzf_seams"))
     n_enum = len(jobs)
     for ri in range(2000 if ctx.thorough else 200):
         recs = []
